@@ -23,9 +23,9 @@ import (
 // CheckDef describes one property check.
 type CheckDef struct {
 	ID          string
-	Build       string                   // "light" or "instr": which build the workers run on
-	Shards      func(tier string) int    // worker processes
-	Run         func(c *Ctx)             // enumerate the bounded space (sharded) and call RunCase
+	Build       string                         // "light" or "instr": which build the workers run on
+	Shards      func(tier string) int          // worker processes
+	Run         func(c *Ctx)                   // enumerate the bounded space (sharded) and call RunCase
 	RunCase     func(c *Ctx, cs []byte) string // execute one case; returns its observation (for conformance)
 	Rule        string
 	Assumptions []string
@@ -84,7 +84,7 @@ func (c *Ctx) Expired() bool {
 }
 
 func (c *Ctx) Count(k string, n int64) { c.Res.Counters[k] += n }
-func (c *Ctx) Outcome(k string)         { c.Res.Outcomes[k]++ }
+func (c *Ctx) Outcome(k string)        { c.Res.Outcomes[k]++ }
 func (c *Ctx) Note(s string) {
 	for _, n := range c.Res.Notes {
 		if n == s {
